@@ -7,6 +7,7 @@ from typing import Any, Callable, ClassVar, Final
 import jax
 import jax.numpy as jnp
 import numpy as np
+import onnx_ir as ir
 from jax2onnx._compat.jax import (
     AbstractValue,
     JaxprEqn,
@@ -135,6 +136,29 @@ class OneHotPlugin(PrimitiveLeafPlugin):
             object(),
             np.asarray(num_classes, dtype=np.int64),
         )
+        if np.issubdtype(x_dtype, np.signedinteger):
+            # jax.nn.one_hot yields an all-zero row for every index outside [0, num_classes);
+            # ONNX OneHot counts negative indices from the end.  Send negative indices to
+            # ``num_classes``, which OneHot treats as out of range (all "off" values).
+            zero_i64 = ctx.bind_const_for_var(object(), np.asarray(0, dtype=np.int64))
+            is_negative = ctx.builder.Less(
+                indices_input,
+                zero_i64,
+                _outputs=[ctx.fresh_name("one_hot_index_negative")],
+            )
+            is_negative.type = ir.TensorType(ir.DataType.BOOL)
+            if getattr(x_val, "shape", None) is not None:
+                is_negative.shape = x_val.shape
+            masked = ctx.builder.Where(
+                is_negative,
+                depth_const,
+                indices_input,
+                _outputs=[ctx.fresh_name("one_hot_indices_masked")],
+            )
+            masked.type = ir.TensorType(ir.DataType.INT64)
+            if getattr(x_val, "shape", None) is not None:
+                masked.shape = x_val.shape
+            indices_input = masked
         values_const = ctx.bind_const_for_var(
             object(),
             np.asarray([0, 1], dtype=out_dtype),
